@@ -46,11 +46,13 @@ FLOORS = {
                            "fs_filename_checks": 300, "async_cases": 400,
                            "site_after_stripped_newlines": 300, "crossed_template": 500,
                            "multiline_before_site": 2500}},
-    "thorough": {"evaluations": 60000, "distinct": 40000,
-                 "counters": {"runtime_line_checks": 40000, "syntax_line_checks": 20000,
-                              "fs_filename_checks": 8000, "async_cases": 8000,
-                              "site_after_stripped_newlines": 6000, "crossed_template": 10000,
-                              "multiline_before_site": 50000}},
+    # thorough: 960k evaluations / 913k distinct in 281 s (count-bounded, close
+    # to the time box)
+    "thorough": {"evaluations": 240000, "distinct": 220000,
+                 "counters": {"runtime_line_checks": 160000, "syntax_line_checks": 80000,
+                              "fs_filename_checks": 50000, "async_cases": 80000,
+                              "site_after_stripped_newlines": 55000, "crossed_template": 100000,
+                              "multiline_before_site": 230000}},
 }
 
 SITE = "\x00SITE\x00"
